@@ -137,8 +137,9 @@ fn run_script(case: Value, tx: mpsc::Sender<Value>) {
                 if ui == "exec" {
                     continue; // still busy (maxexec reached): the terminal would not read a line now
                 }
-                let cls = if ui == "line" { classify(&text) } else { ui };
                 let _ = tx.send(json!({"call": "begin", "what": "enter", "text": text}));
+                // (classifying the line uses the interpreter's own lexer: a panic there is a panic of enter)
+                let cls = if ui == "line" { guarded!(classify(&text)) } else { ui };
                 guarded!(rt.enter(&text));
                 ui = "exec";
                 let _ = tx.send(json!({"call": "enter", "cls": cls, "post": post(&rt)}));
@@ -223,7 +224,12 @@ pub fn shell_cmd(args: &[String]) -> i32 {
                         hangs += 1;
                         break;
                     }
-                    Err(mpsc::RecvTimeoutError::Disconnected) => break,
+                    Err(mpsc::RecvTimeoutError::Disconnected) => {
+                        // the script's thread ended without reporting the end of the script: it died
+                        evs.push(json!({"call": "panic", "text": "script thread died", "during": last_begin}));
+                        end = "panic".into();
+                        break;
+                    }
                 }
             }
         }
